@@ -232,3 +232,77 @@ Section RequestName.
       apply Forall_app in H1. tauto.
   Qed.
 End RequestName.
+
+(* ---- Name.String is injective on non-empty names: keying the cache by the label list (model) and by
+   the rendered string (code) is the same thing ---- *)
+Definition wf_name (n : name) : Prop := Forall (fun l => wf_bytes l = true) n.
+
+Lemma hexdigit_inj a b : a < 16 -> b < 16 -> hexdigit a = hexdigit b -> a = b.
+Proof. unfold hexdigit. intros Ha Hb. destruct (a <? 10) eqn:E1, (b <? 10) eqn:E2; lia. Qed.
+
+Lemma plain_not_special b : is_plain b = true -> b <> 46 /\ b <> 92.
+Proof. unfold is_plain. intros H. lia. Qed.
+
+(* a tail is either empty or starts with the separating dot *)
+Definition tail_ok (t : bytes) : Prop := t = [] \/ exists t', t = 46 :: t'.
+
+Lemma esc_label_inj l1 : forall l2 t1 t2,
+  wf_bytes l1 = true -> wf_bytes l2 = true -> tail_ok t1 -> tail_ok t2 ->
+  esc_label l1 ++ t1 = esc_label l2 ++ t2 -> l1 = l2 /\ t1 = t2.
+Proof.
+  induction l1 as [|b1 l1 IH]; intros l2 t1 t2 W1 W2 T1 T2 E.
+  - destruct l2 as [|b2 l2]; [auto|]. exfalso. cbn [esc_label flat_map app] in E.
+    unfold esc_byte in E. destruct (is_plain b2) eqn:P2.
+    + apply plain_not_special in P2 as [P46 _]. destruct T1 as [->|[t' ->]]; cbn in E; [discriminate|]. injection E as E _. congruence.
+    + destruct T1 as [->|[t' ->]]; cbn in E; discriminate.
+  - destruct l2 as [|b2 l2].
+    + exfalso. cbn [esc_label flat_map app] in E. unfold esc_byte in E. destruct (is_plain b1) eqn:P1.
+      * apply plain_not_special in P1 as [P46 _]. destruct T2 as [->|[t' ->]]; cbn in E; [discriminate|]. injection E as E _. congruence.
+      * destruct T2 as [->|[t' ->]]; cbn in E; discriminate.
+    + cbn [wf_bytes forallb] in W1, W2. apply andb_true_iff in W1 as [B1 W1], W2 as [B2 W2]. unfold wf_byte in B1, B2.
+      cbn [esc_label flat_map] in E. rewrite <- !app_assoc in E. fold (esc_label l1) in E. fold (esc_label l2) in E.
+      unfold esc_byte in E. destruct (is_plain b1) eqn:P1, (is_plain b2) eqn:P2; cbn [app] in E.
+      * injection E as -> E. destruct (IH _ _ _ W1 W2 T1 T2 E) as [-> ->]. auto.
+      * injection E as -> _. apply plain_not_special in P1. tauto.
+      * injection E as <- _. apply plain_not_special in P2. tauto.
+      * injection E as Hhi Hlo E.
+        apply hexdigit_inj in Hhi; [|lia|lia]. apply hexdigit_inj in Hlo; [|lia|lia].
+        assert (b1 = b2) by lia. subst b2.
+        destruct (IH _ _ _ W1 W2 T1 T2 E) as [-> ->]. auto.
+Qed.
+
+Lemma dotted_tail_ok r : tail_ok (dotted r).
+Proof. destruct r as [|l r]; [left; reflexivity|right]. cbn [dotted flat_map app]. eexists; reflexivity. Qed.
+
+Lemma dotted_inj r1 : forall r2, wf_name r1 -> wf_name r2 -> dotted r1 = dotted r2 -> r1 = r2.
+Proof.
+  induction r1 as [|l1 r1 IH]; intros [|l2 r2] W1 W2 E; cbn [dotted flat_map app] in E; try discriminate; [reflexivity|].
+  injection E as E. fold (dotted r1) in E. fold (dotted r2) in E.
+  inversion W1; subst. inversion W2; subst.
+  destruct (esc_label_inj l1 l2 _ _ ltac:(assumption) ltac:(assumption) (dotted_tail_ok r1) (dotted_tail_ok r2) E) as [-> E'].
+  f_equal. apply IH; assumption.
+Qed.
+
+Lemma name_string_inj n1 n2 :
+  n1 <> [] -> n2 <> [] -> wf_name n1 -> wf_name n2 -> name_string n1 = name_string n2 -> n1 = n2.
+Proof.
+  destruct n1 as [|l1 r1]; [congruence|]. destruct n2 as [|l2 r2]; [congruence|]. intros _ _ W1 W2 E.
+  cbn [name_string] in E. inversion W1; subst. inversion W2; subst.
+  destruct (esc_label_inj l1 l2 _ _ ltac:(assumption) ltac:(assumption) (dotted_tail_ok r1) (dotted_tail_ok r2) E) as [-> E'].
+  f_equal. apply dotted_inj; assumption.
+Qed.
+
+(* hence the two lookups agree on caches of non-empty well-formed suffixes *)
+Lemma cache_find_str_eq c k :
+  k <> [] -> wf_name k -> (forall e, In e c -> ce_key e <> [] /\ wf_name (ce_key e)) ->
+  cache_find_str c k = cache_find c k.
+Proof.
+  intros Hk Wk. induction c as [|e r IH]; intros Hc; [reflexivity|].
+  cbn [cache_find_str cache_find]. destruct (Hc e (or_introl eq_refl)) as [He We].
+  destruct (name_eqb (ce_key e) k) eqn:E1.
+  - apply name_eqb_eq in E1. rewrite E1, bytes_eqb_refl. reflexivity.
+  - destruct (bytes_eqb (name_string (ce_key e)) (name_string k)) eqn:E2.
+    + apply bytes_eqb_eq in E2. apply name_string_inj in E2; try assumption.
+      rewrite E2, name_eqb_refl in E1. discriminate.
+    + apply IH. intros e' He'. apply Hc. right. exact He'.
+Qed.
